@@ -29,7 +29,9 @@ PLAN = {
     "C13": [("memcheck", ["--stage", "san"])],
     "C14": [("memcheck", ["--stage", "san"])],
     "C16": [("memcheck", ["--stage", "san"]), ("asan", ["--stage", "san"])],
+    "C15": [("tsan", ["--tier", "quick"])],
     "C17": [("tsan", ["--tier", "quick"])],
+    "C20": [("memcheck", ["--tier", "quick", "--part", "c"]), ("asan", ["--tier", "quick", "--part", "c"])],
 }
 if os.environ.get("MZV_SAN_TOOLS"):
     allowed = set(os.environ["MZV_SAN_TOOLS"].split(","))
